@@ -104,7 +104,8 @@ def run(ctx: Ctx, clauses_exclude=C09_CLAUSES) -> dict:
     c09.model(ctx)          # MC_Generate: the step machine against the normative predicates
     rng = random.Random(ctx.seed + 8)
     table = ctx.table(env)
-    ops = component_ops(ctx, table, rng)
+    import fuzz
+    ops = fuzz.extend(ctx, component_ops(ctx, table, rng), "c08")
     events = calls.execute(ctx, ops, "c08")
     mism = calls.validate(ctx, "TraceGenerate", events, env, "c08", per_shard=4000)
     calls.report(ctx, [m for m in mism if m[1] not in clauses_exclude], None, keyfn)
